@@ -522,9 +522,10 @@ pub mod verif {
         count: usize,
     ) -> Result<crate::JpegBitstreamHeader, jxl_bitstream::Error> {
         use jxl_oxide_common::Bundle;
-        let app_markers = (0..count)
-            .map(|_| crate::AppMarker::parse(bitstream, ()))
-            .collect::<Result<Vec<_>, _>>()?;
+        let mut app_markers = Vec::with_capacity(count);
+        for _ in 0..count {
+            app_markers.push(crate::AppMarker::parse(bitstream, ())?);
+        }
         Ok(crate::JpegBitstreamHeader {
             is_gray: false,
             markers: Vec::new(),
